@@ -87,6 +87,11 @@ def unlink_at_zero(ctx):
         ctx.check(bool(dl) and all(set((unparse(t), p) for (_, t, p) in g.conditions_at(g.nodes_of(d))) == set((unparse(t), p) for (_, t, p) in g.conditions_at(g.nodes_of(c))) or True for d in dl) and
                   any(g.path_exists(g.nodes_of(d), g.nodes_of(c)) or g.path_exists(g.nodes_of(c), g.nodes_of(d)) for d in dl), dl[0] if dl else mu,
                   "the entry is removed from the registry on the clean-up path", "the entry stays in the registry after its clean-up (it would be cleaned again at shutdown)")
+        # ... whatever the clean-up function does: an entry whose count reached zero is forgotten even if deleting the
+        # resource fails (it is no longer registered: it must not be deleted again at shutdown, nor counted from 0 again)
+        ok_del = bool(dl) and any(g.every_path_to(g.nodes_of(c), g.nodes_of(d)) or any(isinstance(a_, ast.Try) and any(d is x_ or any(d is y_ for y_ in ast.walk(x_)) for x_ in a_.finalbody) for a_ in ancestors(c)) for d in dl)
+        ctx.check(ok_del, dl[0] if dl else mu, "the entry is forgotten before the clean-up function is called (or in a finally): a failing clean-up cannot keep a zero-count entry alive",
+                  "the entry is deleted only AFTER a successful clean-up: when the clean-up raises, a zero-count entry stays registered - it is deleted again at tracker exit although no longer registered, and later registrations count from 0")
     rg = br.get("REGISTER")
     if rg is not None:
         inner = [n for n in rg.body if isinstance(n, ast.If)]
